@@ -114,6 +114,8 @@ def equivalence_family(tier):
                 "    br = led.get_brightness()\n    mon.write(1 if st else 0)\n    mon.write(br)\n", None, 1))
     fam.append(("getter_vars/Servo", HDR + "servo = Servo(10)\nwhile True:\n" + READ + "    servo.write(v // 6)\n    ang = servo.read()\n"
                 "    pul = servo.read_us()\n    mon.write(ang)\n    mon.write(pul)\n    servo.write_us(pul)\n", None, 1))
+    fam.append(("getter_vars/Servo_literal", HDR + "servo = Servo(10)\nwhile True:\n" + READ + "    servo.write(50)\n    ang = servo.read()\n"
+                "    pul = servo.read_us()\n    mon.write(ang)\n    mon.write(pul)\n    servo.write_us(pul)\n    if pul > 1059.5:\n        mon.write(1)\n", None, 1))
     fam.append(("getter_vars/DCMotor", HDR + "motor = DCMotor(4, 7, 11)\nwhile True:\n" + READ + "    motor.set_speed(v / 512.0 - 1.0)\n"
                 "    sp = motor.get_speed()\n    ap = motor.get_applied_speed()\n    inv = motor.is_inverted()\n"
                 "    mon.write(sp)\n    mon.write(ap)\n    mon.write(1 if inv else 0)\n", None, 1))
